@@ -65,6 +65,11 @@ func relevantV1Txn(txn types.Transaction, addr types.Address) bool {
 			return true
 		}
 	}
+	for _, si := range txn.SiafundInputs {
+		if si.ClaimAddress == addr {
+			return true // the siafund claim is paid to the address
+		}
+	}
 	return false
 }
 
@@ -77,6 +82,11 @@ func relevantV2Txn(txn types.V2Transaction, addr types.Address) bool {
 	for _, si := range txn.SiacoinInputs {
 		if si.Parent.SiacoinOutput.Address == addr {
 			return true
+		}
+	}
+	for _, si := range txn.SiafundInputs {
+		if si.ClaimAddress == addr {
+			return true // the siafund claim is paid to the address
 		}
 	}
 	return false
@@ -119,7 +129,7 @@ func appliedEvents(cau chain.ApplyUpdate, walletAddress types.Address) (events [
 			continue
 		}
 		for _, si := range txn.SiafundInputs {
-			if si.UnlockConditions.UnlockHash() == walletAddress {
+			if si.ClaimAddress == walletAddress {
 				outputID := si.ParentID.ClaimOutputID()
 				sce, ok := siacoinElements[outputID]
 				if !ok {
@@ -153,7 +163,7 @@ func appliedEvents(cau chain.ApplyUpdate, walletAddress types.Address) (events [
 			continue
 		}
 		for _, si := range txn.SiafundInputs {
-			if si.Parent.SiafundOutput.Address == walletAddress {
+			if si.ClaimAddress == walletAddress {
 				outputID := types.SiafundOutputID(si.Parent.ID).V2ClaimOutputID()
 				sce, ok := siacoinElements[outputID]
 				if !ok {
